@@ -1344,6 +1344,47 @@ func (*WaitGroup).End
   requires w != nil
   ensures ghost(wgcount, &w.Native) == old(ghost(wgcount, &w.Native)) - 1
 
+// ---- channels (C25): FIFO queue with a closed flag (sequential model, see elkvc chan.go) -----
+// chlen / chat / chclosed speak about the Go channel behind the wrapper.  A pushed value is
+// appended; a pop removes the oldest value; a closed channel rejects pushes with the push
+// error, still hands out what is queued, then rejects pops with the pop error; closing twice is
+// the close error.  None of these is ever a Go panic leaving the wrapper.
+spec fn isRefTo(v Value, o *Object) bool = isObj(v) && v.ptr == o
+
+func (*ChannelOfValue).Push
+  props C25 C01
+  requires ch != nil && ch.native != nil && ChannelClosedPushError != nil
+  ensures open: !old(chclosed(ch.native)) ==> err == Undefined && chlen(ch.native) == old(chlen(ch.native)) + 1 && chat(ch.native, old(chlen(ch.native))) == val
+  ensures order: !old(chclosed(ch.native)) ==> (forall k int :: 0 <= k && k < old(chlen(ch.native)) ==> chat(ch.native, k) == old(chat(ch.native, k)))
+  ensures closed: old(chclosed(ch.native)) ==> isRefTo(err, ChannelClosedPushError) && chlen(ch.native) == old(chlen(ch.native))
+  ensures flag: chclosed(ch.native) == old(chclosed(ch.native))
+
+func (*ChannelOfValue).Pop
+  props C25 C01
+  requires ch != nil && ch.native != nil && ChannelClosedPopError != nil
+  ensures head: old(chlen(ch.native)) > 0 ==> err == Undefined && result == old(chat(ch.native, 0)) && chlen(ch.native) == old(chlen(ch.native)) - 1
+  ensures order: old(chlen(ch.native)) > 0 ==> (forall k int :: 0 <= k && k < chlen(ch.native) ==> chat(ch.native, k) == old(chat(ch.native, k + 1)))
+  ensures drained: old(chlen(ch.native)) == 0 && old(chclosed(ch.native)) ==> result == Undefined && isRefTo(err, ChannelClosedPopError)
+  ensures either: err == Undefined || (result == Undefined && isRefTo(err, ChannelClosedPopError) && chclosed(ch.native))
+
+func (*ChannelOfValue).NextValue
+  props C25 C01
+  requires ch != nil && ch.native != nil
+  ensures head: old(chlen(ch.native)) > 0 ==> ret1 == Undefined && ret0 == old(chat(ch.native, 0)) && chlen(ch.native) == old(chlen(ch.native)) - 1
+  ensures drained: old(chlen(ch.native)) == 0 && old(chclosed(ch.native)) ==> ret0 == Undefined && ret1 == stopIterationSymbol.ToValue()
+
+func (*ChannelOfValue).Close
+  props C25 C01
+  requires ch != nil && ChannelClosedCloseError != nil
+  ensures open: ch.native != nil && !old(chclosed(ch.native)) ==> err == Undefined && chclosed(ch.native) && chlen(ch.native) == old(chlen(ch.native))
+  ensures twice: ch.native == nil || old(chclosed(ch.native)) ==> isRefTo(err, ChannelClosedCloseError)
+
+func (*ChannelOfValue).Length
+  props C25
+  requires ch != nil && ch.native != nil
+  assigns nothing
+  ensures ret == chlen(ch.native)
+
 // ==== C07: fixed-width integers =============================================================
 // (this block is written by /verif/tools/gen_c07_contracts.py)
 // Reference semantics: two's-complement arithmetic modulo 2^bits.  wrapW reduces a mathematical
